@@ -46,6 +46,7 @@ type srcOrder struct {
 	FlusherSwap       bool     `json:"flusher_swap"`
 	FlagInWriteAOF    bool     `json:"flag_in_writeaof"`
 	DetachStoreLocked bool     `json:"golive_store_locked"`
+	FlusherStore      bool     `json:"flusher_store"`
 	Callers           []string `json:"writeaof_callers"`
 	Problems          []string `json:"problems"`
 	Main              string   `json:"main_block_order"`
@@ -358,8 +359,17 @@ func readSourceOrder(repo string) srcOrder {
 	}
 	if b := fn(serverGo, "backgroundSyncAOF"); b != nil {
 		lk, fl := firstCall(b, "s.mu.LockLowPriority"), firstCall(b, "s.flushAOF")
-		// an access to the flag by the flusher: recognised only as `if !s.aofdirty.Swap(false) { return }` before the lock
-		nflag, nswap := 0, 0
+		// an access to the flag by the flusher: recognised as `if !s.aofdirty.Swap(false) { return }` before the
+		// lock, or as a statement `s.aofdirty.Store(false)` at the start of the round (before the lock and
+		// before the flusher's first schedule point)
+		nflag, nswap, nstore := 0, 0, 0
+		var f1 token.Pos
+		ast.Inspect(b.Body, func(x ast.Node) bool {
+			if c, ok := x.(*ast.CallExpr); ok && callee(c) == "s.verifSchedBG" && len(c.Args) == 1 && types.ExprString(c.Args[0]) == `"F1"` && f1 == 0 {
+				f1 = c.Pos()
+			}
+			return true
+		})
 		ast.Inspect(b.Body, func(x ast.Node) bool {
 			if c, ok := x.(*ast.CallExpr); ok && strings.HasPrefix(callee(c), "s.aofdirty.") {
 				nflag++
@@ -370,10 +380,20 @@ func readSourceOrder(repo string) srcOrder {
 					nswap++
 				}
 			}
+			if fl, ok := x.(*ast.FuncLit); ok {
+				for _, stm := range fl.Body.List {
+					if es, ok := stm.(*ast.ExprStmt); ok && types.ExprString(es.X) == "s.aofdirty.Store(false)" &&
+						lk != 0 && es.End() < lk && (f1 == 0 || es.End() < f1) {
+						nstore++
+					}
+				}
+			}
 			return true
 		})
 		if nflag == 1 && nswap == 1 {
 			so.FlusherSwap = true
+		} else if nflag == 1 && nstore == 1 {
+			so.FlusherStore = true
 		} else if nflag != 0 {
 			bad("backgroundSyncAOF touches the dirty flag in a way the model does not know")
 		}
@@ -445,6 +465,9 @@ func readSourceOrder(repo string) srcOrder {
 	}
 	if so.DetachPrewrite {
 		want["server.go:s.aofdirty.Load"], want["server.go:s.aofdirty.Store(false)"] = 2, 2
+	}
+	if so.FlusherStore {
+		want["server.go:s.aofdirty.Store(false)"]++
 	}
 	for k, n := range uses {
 		if want[k] != n {
@@ -560,10 +583,10 @@ func parseMState(w string) mstate {
 		File: parseInts(f[4]), Acked: parseInts(f[5]), OK: f[6] == "1"}
 }
 
-type variant struct{ storeLocked, detachPrewrite, flusherSwap, flagInWriteAOF, detachStoreLocked bool }
+type variant struct{ storeLocked, detachPrewrite, flusherSwap, flagInWriteAOF, detachStoreLocked, flusherStore bool }
 
 func modelTrace(drv *model.Driver, v variant, progs []prog, sched []int) []mstate {
-	toks := []string{"trace", model.B(v.storeLocked), model.B(v.detachPrewrite), model.B(v.flusherSwap), model.B(v.flagInWriteAOF), model.B(v.detachStoreLocked), strconv.Itoa(len(progs))}
+	toks := []string{"trace", model.B(v.storeLocked), model.B(v.detachPrewrite), model.B(v.flusherSwap), model.B(v.flagInWriteAOF), model.B(v.detachStoreLocked), model.B(v.flusherStore), strconv.Itoa(len(progs))}
 	for _, p := range progs {
 		toks = append(toks, p.token())
 	}
@@ -804,6 +827,14 @@ func (e *env) replay(sc scenario) (reusable bool) {
 			return false
 		}
 	}
+	if e.v.flusherStore && e.bgFlying {
+		// this order clears the flag when a round of the flusher begins, in front of its first schedule
+		// point: let the round that is under way begin before the scenario does (the model starts the
+		// flusher after that store, at its lock)
+		if w := parseStatus(e.ctl.ask("wait bg 4000")); w.OK && w.Point == "F1" {
+			e.bgFlying = false
+		}
+	}
 	var pre []int
 	for _, p := range sc.Progs {
 		for _, b := range p.Batches {
@@ -893,7 +924,18 @@ func (e *env) replay(sc scenario) (reusable bool) {
 					}
 					e.bgFlying = false
 				}
-				if e.v.flusherSwap {
+				if e.v.flusherStore {
+					// the model's step is the store at the start of the next round: it has happened when the
+					// flusher arrives at its first schedule point (waited for above, or now)
+					if pcB == "F1" && !e.bgFlying {
+						st = parseStatus(e.ctl.ask("stat"))
+					} else {
+						st = parseStatus(e.ctl.ask("wait bg 4000"))
+						e.bgFlying = false
+					}
+					st.OK = true
+					st.Point = pcA
+				} else if e.v.flusherSwap {
 					// the flag swap happens before the lock and there is no schedule point between them:
 					// release the flusher and look at the flag; it parks at F2 when the model takes the lock (FL)
 					if rep := e.ctl.ask("go bg"); rep != "ok" {
@@ -910,7 +952,16 @@ func (e *env) replay(sc scenario) (reusable bool) {
 					st = parseStatus(e.ctl.ask("step bg 3000"))
 				}
 			case "FL":
-				st = parseStatus(e.ctl.ask("wait bg 3000"))
+				if e.v.flusherStore {
+					// parked at the schedule point between the store and the lock
+					if e.bgFlying {
+						e.ctl.ask("wait bg 4000")
+						e.bgFlying = false
+					}
+					st = parseStatus(e.ctl.ask("step bg 3000"))
+				} else {
+					st = parseStatus(e.ctl.ask("wait bg 3000"))
+				}
 			case "F2":
 				st = parseStatus(e.ctl.ask("step bg 3000"))
 			case "F3":
@@ -1066,7 +1117,11 @@ func (e *env) replay(sc scenario) (reusable bool) {
 		}
 		switch final.PCs[i] {
 		case "FL":
-			e.ctl.ask("wait bg 3000")
+			if e.v.flusherStore {
+				e.ctl.ask("step bg 3000")
+			} else {
+				e.ctl.ask("wait bg 3000")
+			}
 			fallthrough
 		case "F2":
 			e.ctl.ask("step bg 3000")
@@ -1185,6 +1240,10 @@ func corpus() []scenario {
 			Sched: cat(rep(0, 4), rep(1, 1), rep(0, 2), rep(1, 2), rep(0, 6))},
 		{Name: "the flusher starts its round between a connection's append and its flag test, kill -9 at the acknowledgement", Progs: []prog{conn(wr(1)), {Flusher: true}},
 			Sched: cat(rep(0, 4), rep(1, 1), rep(0, 2), rep(1, 2), rep(0, 6)), KillAtAck: 1},
+		{Name: "a whole (empty) round of the flusher, then its next round begins between a connection's append and its flag test", Progs: []prog{conn(wr(1)), {Flusher: true}},
+			Sched: cat(rep(1, 3), rep(0, 4), rep(1, 1), rep(0, 2), rep(1, 3), rep(0, 6))},
+		{Name: "a whole (empty) round of the flusher, then its next round begins between a connection's append and its flag test, kill -9 at the acknowledgement", Progs: []prog{conn(wr(1)), {Flusher: true}},
+			Sched: cat(rep(1, 3), rep(0, 4), rep(1, 1), rep(0, 2), rep(1, 3), rep(0, 6)), KillAtAck: 1},
 		{Name: "writes made by scripts: EVAL set, EVALNA set, EVAL del, EVALNA del, plain DEL", Progs: []prog{conn(via("eval", false, 1), via("evalna", false, 2), via("eval", true, 3), via("evalna", true, 4), via("", true, 5))}, Sched: rep(0, 60)},
 		{Name: "EVAL ... tile38.call('set') then kill -9 at its acknowledgement", Progs: []prog{conn(via("eval", false, 1))}, Sched: rep(0, 12), KillAtAck: 1},
 		{Name: "EVALNA ... tile38.call('set') then kill -9 at its acknowledgement", Progs: []prog{conn(via("evalna", false, 1))}, Sched: rep(0, 12), KillAtAck: 1},
@@ -1306,6 +1365,12 @@ func flusherWindowScenario(rng *rand.Rand, round int) scenario {
 	a2 := 1 + rng.Intn(3)
 	c1 := rng.Intn(6)
 	sched := cat(rep(0, a1), rep(1, f1), rep(2, c1), rep(0, a2), rep(1, round-f1), completion(progs))
+	if rng.Intn(3) == 0 {
+		// the flusher has been through a round already: its next one begins inside the connection's window
+		a0 := rng.Intn(3)
+		sched = cat(rep(0, a0), rep(1, 3), rep(0, a1-a0), rep(1, f1), rep(2, c1), rep(0, a2), rep(1, 4), completion(progs))
+		return scenario{Name: "flusher-window after a round", Progs: progs, Sched: sched}
+	}
 	return scenario{Name: "flusher-window", Progs: progs, Sched: sched}
 }
 
@@ -1349,6 +1414,11 @@ type shrinkCase struct {
 	Gate string `json:"rewrite_parked_at"`
 	Kill bool   `json:"kill9_after_the_writes"`
 	Seed int64  `json:"seed"`
+	// administrative requests sent between the acknowledged writes while the rewrite is parked: a
+	// second AOFSHRINK (refused: a rewrite is running; still answers +OK), AOFSHRINK twice, GC, ...
+	Admin  int      `json:"admin_requests_between_the_writes"`
+	Arrive int      `json:"gate_arrival,omitempty"` // park at this arrival (0 = random) of an ids / keys gate
+	Sent   []string `json:"commands_sent_while_parked,omitempty"`
 }
 
 func (e *env) shrinkWindow(sc shrinkCase) {
@@ -1412,6 +1482,9 @@ func (e *env) shrinkWindow(sc shrinkCase) {
 	case "keys": // two batches of collection names
 		skip = rng.Intn(2)
 	}
+	if sc.Arrive > 0 {
+		skip = sc.Arrive - 1
+	}
 	ev := ctl.ask("wait 8000")
 	for i := 0; i < skip && strings.HasPrefix(ev, sc.Gate); i++ {
 		ev = ctl.ask("step 8000")
@@ -1426,6 +1499,9 @@ func (e *env) shrinkWindow(sc shrinkCase) {
 		id     string
 		gone   bool // the object must not exist afterwards
 		needle []byte
+		fresh  []byte // SET of a new id: the id must also be in the file the rewrite leaves
+		lat    string // SET over an existing object: its new latitude
+		admin  bool   // not a write: an administrative request
 	}
 	var ws []wr
 	for i := 0; i < 6; i++ {
@@ -1447,13 +1523,49 @@ func (e *env) shrinkWindow(sc shrinkCase) {
 			ws = append(ws, wr{args: []string{"EVAL", "return tile38.call('set', KEYS[1], ARGV[1], 'point', 3, 3)", "1", "cb", id}, id: "cb/" + id, needle: []byte(id)})
 		case 2:
 			ex := fmt.Sprintf("o%02d", rng.Intn(40))
-			ws = append(ws, wr{args: []string{"SET", "cb", ex, "POINT", "9", strconv.Itoa(100 + i)}, id: "cb/" + ex, needle: srv.Encode("SET", "cb", ex, "POINT", "9", strconv.Itoa(100+i))})
+			lat := strconv.Itoa(60 + i)
+			ws = append(ws, wr{args: []string{"SET", "cb", ex, "POINT", lat, strconv.Itoa(100 + i)}, id: "cb/" + ex, lat: lat, needle: srv.Encode("SET", "cb", ex, "POINT", lat, strconv.Itoa(100+i))})
 		default:
-			ws = append(ws, wr{args: []string{"SET", "ca", id, "POINT", "4", "4"}, id: "ca/" + id, needle: []byte(id)})
+			ws = append(ws, wr{args: []string{"SET", "ca", id, "POINT", "4", "4"}, id: "ca/" + id, needle: []byte(id), fresh: []byte(id)})
+		}
+	}
+	// administrative requests at random positions after the first write (and one after the last)
+	for k := 0; k < sc.Admin && len(ws) > 0; k++ {
+		var a []string
+		switch rng.Intn(10) {
+		case 0:
+			a = []string{"GC"}
+		case 1:
+			a = []string{"AOFMD5", "0", "0"}
+		case 2:
+			a = []string{"SERVER"}
+		default:
+			a = []string{"AOFSHRINK"}
+		}
+		pos := 1 + rng.Intn(len(ws))
+		if k == 0 {
+			a, pos = []string{"AOFSHRINK"}, len(ws)-rng.Intn(2)
+		}
+		ws = append(ws[:pos], append([]wr{{args: a, admin: true}}, ws[pos:]...)...)
+		if rng.Intn(4) == 0 { // the same request twice in a row
+			ws = append(ws[:pos], append([]wr{{args: a, admin: true}}, ws[pos:]...)...)
 		}
 	}
 	aofPath := filepath.Join(dir, "appendonly.aof")
 	for _, q := range ws {
+		sc.Sent = append(sc.Sent, strings.Join(q.args[:min(len(q.args), 3)], " "))
+	}
+	for _, q := range ws {
+		if q.admin {
+			// sent on the administrative connection; AOFSHRINK answers +OK and runs `go s.aofshrink()`:
+			// give that goroutine the time to reach (and be refused by) the entry check
+			if v, err := a.Do(q.args...); err != nil {
+				fail("correspondence", "setup", fmt.Sprintf("%v during the rewrite: %v %v", q.args, v.String(), err), nil, nil)
+				return
+			}
+			time.Sleep(3 * time.Millisecond)
+			continue
+		}
 		v, err := w.Do(q.args...)
 		if err != nil || v.IsErr() {
 			fail("correspondence", "setup", fmt.Sprintf("%v during the rewrite: %v %v", q.args, v.String(), err), nil, nil)
@@ -1465,9 +1577,16 @@ func (e *env) shrinkWindow(sc shrinkCase) {
 			fail("oracle", "ack-before-flush", fmt.Sprintf("%v was acknowledged (%s) while an AOFSHRINK is parked at its %q gate, but appendonly.aof (%d bytes) does not contain the command", q.args[:3], v.String(), sc.Gate, len(aof)), v.String(), nil)
 		}
 	}
-	final := map[string]bool{} // id -> must exist
+	final := map[string]bool{}  // id -> must exist
+	lats := map[string]string{} // id -> latitude of the last acknowledged SET over an existing object
 	for _, q := range ws {
+		if q.admin {
+			continue
+		}
 		final[q.id] = !q.gone
+		if q.lat != "" {
+			lats[q.id] = q.lat
+		}
 	}
 	if sc.Kill {
 		e.kills++
@@ -1484,6 +1603,16 @@ func (e *env) shrinkWindow(sc shrinkCase) {
 		if !done {
 			fail("correspondence", "control-socket", "the rewrite did not finish after the gates were disarmed", nil, nil)
 			return
+		}
+		// the file the rewrite left is the live file now: the writes acknowledged while it ran must be in it
+		if aof, err := os.ReadFile(aofPath); err == nil {
+			for _, q := range ws {
+				if q.fresh != nil && !bytes.Contains(aof, q.fresh) {
+					fail("oracle", "acked-write-not-in-aof-after-shrink", fmt.Sprintf("%v was acknowledged while an AOFSHRINK was parked at its %q gate (commands sent while it was parked: %s); the rewrite has finished and appendonly.aof (%d bytes) does not contain the object: the acknowledged write exists in memory only",
+						q.args[:3], sc.Gate, strings.Join(sc.Sent, " ; "), len(aof)), nil, nil)
+					break
+				}
+			}
 		}
 		// one more acknowledged write after the swap, then kill
 		id := fmt.Sprintf("%sz%d", e.nonce, e.nsrv)
@@ -1514,13 +1643,18 @@ func (e *env) shrinkWindow(sc shrinkCase) {
 			v, err = pc.Do("GET", kv[0], kv[1], "POINT")
 		}
 		if must && (err != nil || v.Kind != '*') {
-			fail("oracle", "acked-write-lost-after-kill9", fmt.Sprintf("a write of %s %s was acknowledged while an AOFSHRINK was in progress (gate %q, rewrite %s), the server was killed with SIGKILL, and after the restart GET answers %s", kv[0], kv[1], sc.Gate, map[bool]string{true: "not finished", false: "finished"}[sc.Kill], v.String()), v.String(), nil)
+			fail("oracle", "acked-write-lost-after-kill9", fmt.Sprintf("a write of %s %s was acknowledged while an AOFSHRINK was in progress (gate %q, rewrite %s; commands sent while it was parked: %s), the server was killed with SIGKILL, and after the restart GET answers %s", kv[0], kv[1], sc.Gate, map[bool]string{true: "not finished", false: "finished"}[sc.Kill], strings.Join(sc.Sent, " ; "), v.String()), v.String(), nil)
+		} else if must && lats[id] != "" && (len(v.Array) < 1 || v.Array[0].Str != lats[id]) {
+			fail("oracle", "acked-write-lost-after-kill9", fmt.Sprintf("SET %s %s POINT %s .. (over an existing object) was acknowledged while an AOFSHRINK was in progress (gate %q, rewrite %s; commands sent while it was parked: %s), the server was killed with SIGKILL, and after the restart the object is %s", kv[0], kv[1], lats[id], sc.Gate, map[bool]string{true: "not finished", false: "finished"}[sc.Kill], strings.Join(sc.Sent, " ; "), v.String()), v.String(), nil)
 		}
 		if !must && (err != nil || v.Kind != 'n') {
-			fail("oracle", "acked-write-lost-after-kill9", fmt.Sprintf("DEL %s %s was acknowledged while an AOFSHRINK was in progress (gate %q), the server was killed with SIGKILL, and after the restart the object is back: %s", kv[0], kv[1], sc.Gate, v.String()), v.String(), nil)
+			fail("oracle", "acked-write-lost-after-kill9", fmt.Sprintf("DEL %s %s was acknowledged while an AOFSHRINK was in progress (gate %q; commands sent while it was parked: %s), the server was killed with SIGKILL, and after the restart the object is back: %s", kv[0], kv[1], sc.Gate, strings.Join(sc.Sent, " ; "), v.String()), v.String(), nil)
 		}
 	}
-	r.Count(fmt.Sprintf("shrink|%s|%v|%d", sc.Gate, sc.Kill, sc.Seed), true)
+	r.Count(fmt.Sprintf("shrink|%s|%v|%d|%d", sc.Gate, sc.Kill, sc.Admin, sc.Seed), true)
+	if sc.Admin > 0 {
+		r.Dist("scenario:shrink-window+second-request")
+	}
 	r.Dist("scenario:shrink-window")
 	r.Sample(8, sc)
 }
@@ -1543,10 +1677,10 @@ func runC08(r *hx.Result, cfg hx.Config) {
 	if len(so.Problems) > 0 {
 		r.Fail(hx.Failure{Kind: "correspondence", Signature: "source-order-shape", What: "netServe/writeAOF/flushAOF no longer have the statement shape the model Model/Prewrite.v transcribes: " + strings.Join(so.Problems, "; "), Case: so})
 	}
-	if !so.StoreLocked || !so.DetachPrewrite || so.FlusherSwap || !so.FlagInWriteAOF || !so.DetachStoreLocked {
+	if !so.StoreLocked || !so.DetachPrewrite || so.FlusherSwap || !so.FlagInWriteAOF || !so.DetachStoreLocked || so.FlusherStore {
 		r.Fail(hx.Failure{Kind: "correspondence", Signature: "source-order-variant",
-			What: fmt.Sprintf("the source has statement order store_locked=%v detach_prewrite=%v flusher_swap=%v flag_in_writeaof=%v golive_store_locked=%v (reply block: %s; goingLive block: %s); theorem c08_acked_flushed is about store_locked=true detach_prewrite=true flusher_swap=false flag_in_writeaof=true golive_store_locked=true, and the c08_*_refuted theorems give violating schedules for the other orders",
-				so.StoreLocked, so.DetachPrewrite, so.FlusherSwap, so.FlagInWriteAOF, so.DetachStoreLocked, so.Main, so.Detach), Case: so})
+			What: fmt.Sprintf("the source has statement order store_locked=%v detach_prewrite=%v flusher_swap=%v flag_in_writeaof=%v golive_store_locked=%v flusher_store=%v (reply block: %s; goingLive block: %s); theorem c08_acked_flushed is about store_locked=true detach_prewrite=true flusher_swap=false flag_in_writeaof=true golive_store_locked=true flusher_store=false, and the c08_*_refuted theorems give violating schedules for the other orders",
+				so.StoreLocked, so.DetachPrewrite, so.FlusherSwap, so.FlagInWriteAOF, so.DetachStoreLocked, so.FlusherStore, so.Main, so.Detach), Case: so})
 	}
 	rng := rand.New(rand.NewSource(cfg.Seed))
 	drv, err := model.Start("prewrite")
@@ -1554,7 +1688,7 @@ func runC08(r *hx.Result, cfg hx.Config) {
 		panic(err)
 	}
 	defer drv.Close()
-	e := &env{r: r, cfg: cfg, drv: drv, v: variant{so.StoreLocked, so.DetachPrewrite, so.FlusherSwap, so.FlagInWriteAOF, so.DetachStoreLocked}, nonce: fmt.Sprintf("s%d", cfg.Seed%100000)}
+	e := &env{r: r, cfg: cfg, drv: drv, v: variant{so.StoreLocked, so.DetachPrewrite, so.FlusherSwap, so.FlagInWriteAOF, so.DetachStoreLocked, so.FlusherStore}, nonce: fmt.Sprintf("s%d", cfg.Seed%100000)}
 	defer e.stopServer()
 
 	run := func(sc scenario) {
@@ -1614,13 +1748,27 @@ func runC08(r *hx.Result, cfg hx.Config) {
 	if cfg.Tier == "thorough" || cfg.Search {
 		nShrink = 60
 	}
+	// first: a second AOFSHRINK (and other administrative requests) between the acknowledged writes, with the
+	// rewrite parked after it has copied the collections written to; then the same at every gate
+	for _, sc := range []shrinkCase{
+		{Gate: "final", Admin: 1}, {Gate: "ids", Arrive: 3, Admin: 2}, {Gate: "final", Kill: true, Admin: 2}, {Gate: "hooknames", Admin: 3},
+	} {
+		if within() {
+			sc.Name, sc.Seed = "writes and a second AOFSHRINK during AOFSHRINK", rng.Int63()
+			e.shrinkWindow(sc)
+		}
+	}
 	for i := 0; i < nShrink && within(); i++ {
-		e.shrinkWindow(shrinkCase{Name: "writes during AOFSHRINK", Gate: gates[i%len(gates)], Kill: i%2 == 0, Seed: rng.Int63()})
+		sc := shrinkCase{Name: "writes during AOFSHRINK", Gate: gates[i%len(gates)], Kill: i%2 == 0, Seed: rng.Int63()}
+		if i%3 != 0 {
+			sc.Name, sc.Admin = "writes and administrative requests during AOFSHRINK", 1+rng.Intn(3)
+		}
+		e.shrinkWindow(sc)
 	}
 	e.stopServer()
 	for i := 0; i < nFlusher && within(); i++ {
 		round := 3
-		if e.v.flusherSwap {
+		if e.v.flusherSwap || e.v.flusherStore {
 			round = 4
 		}
 		if i%2 == 0 {
@@ -1663,5 +1811,5 @@ func runC08(r *hx.Result, cfg hx.Config) {
 	r.Extra["acknowledgements_observed"] = e.acks
 	r.Extra["kill9_restarts"] = e.kills
 	r.Extra["servers_started"] = e.nsrv
-	r.Extra["model_variant"] = fmt.Sprintf("store_locked=%v detach_prewrite=%v flusher_swap=%v flag_in_writeaof=%v golive_store_locked=%v", e.v.storeLocked, e.v.detachPrewrite, e.v.flusherSwap, e.v.flagInWriteAOF, e.v.detachStoreLocked)
+	r.Extra["model_variant"] = fmt.Sprintf("store_locked=%v detach_prewrite=%v flusher_swap=%v flag_in_writeaof=%v golive_store_locked=%v flusher_store=%v", e.v.storeLocked, e.v.detachPrewrite, e.v.flusherSwap, e.v.flagInWriteAOF, e.v.detachStoreLocked, e.v.flusherStore)
 }
